@@ -31,6 +31,25 @@ func (m *TypedDict) put(key string, value *TypedObj) {
 	m.Map[key] = value
 }
 
+// keysMatchMap reports whether Keys is a duplicate-free list of exactly
+// the keys of Map (Map may have been updated since Keys was recorded).
+func (m *TypedDict) keysMatchMap() bool {
+	if len(m.Keys) != len(m.Map) {
+		return false
+	}
+	seen := make(map[string]struct{}, len(m.Keys))
+	for _, k := range m.Keys {
+		if _, ok := m.Map[k]; !ok {
+			return false
+		}
+		if _, dup := seen[k]; dup {
+			return false
+		}
+		seen[k] = struct{}{}
+	}
+	return true
+}
+
 func (m *TypedDict) RLPWriteSelf(w Writer) error {
 	w2, err := w.WriteMap()
 	if err != nil {
@@ -38,7 +57,7 @@ func (m *TypedDict) RLPWriteSelf(w Writer) error {
 	}
 	e2 := NewEncoder(w2)
 	keys := m.Keys
-	if len(keys) != len(m.Map) {
+	if !m.keysMatchMap() {
 		keys = make([]string, 0, len(m.Map))
 		for k := range m.Map {
 			keys = append(keys, k)
